@@ -197,8 +197,28 @@ def build_harness(name="l1", race=False):
     rc, out = sh(cmd, cwd=hdir, env=GOENV, timeout=1800)
     return rc == 0, out, binp
 
+# further statement files of a property (same rules as Properties/<pid>.v: statements, Print Assumptions, Examples);
+# they are compiled, scanned and counted together with the main file
+EXTRA_PROPERTY_FILES = {
+    "C06": ["C06own"],
+}
+
+def property_targets(pid):
+    """make targets of a property's statement files"""
+    return ["Properties/%s.vo" % f for f in [pid] + EXTRA_PROPERTY_FILES.get(pid, [])]
+
 def property_file_info(pid):
-    """compiles coq/Properties/<pid>.v on its own, returns dict(theorems, assumptions, ok, log)"""
+    """compiles the property's statement files on their own, returns dict(theorems, assumptions, ok, log)"""
+    infos = [_property_file_info(f) for f in [pid] + EXTRA_PROPERTY_FILES.get(pid, [])]
+    out = infos[0]
+    for x in infos[1:]:
+        out = {"ok": out["ok"] and x["ok"], "theorems": out["theorems"] + x["theorems"],
+               "examples": out.get("examples", []) + x.get("examples", []), "closed": out.get("closed", 0) + x.get("closed", 0),
+               "axioms": sorted(set(out.get("axioms", [])) | set(x.get("axioms", []))),
+               "log": out["log"] if not out["ok"] else x["log"]}
+    return out
+
+def _property_file_info(pid):
     pf = os.path.join(COQ, "Properties", pid + ".v")
     if not os.path.exists(pf):
         return {"ok": False, "theorems": [], "assumptions": [], "log": "no property file"}
